@@ -149,6 +149,11 @@ def handleE2E (fs : List String) : String :=
   -- on a standby that audits its own requests the configuration in force is the cluster's persisted one
   -- a disable of the only device: stored => no device, nothing audited (no device is enabled); its table write fails =>
   -- error, the device stays enabled and keeps auditing (an operation that answers with an error has no effect)
+  -- the node is restarted while its only (configuration-declared) device cannot be initialised: an enabled device that
+  -- accepts nothing means nothing is routed — the node does not come up; with the device up everything is audited
+  | ["declareddown", down] =>
+    if down = "1" then "unseal:refused|listed:0|served:0|audited:0"
+    else if down = "0" then "unseal:ok|listed:1|served:1|audited:1" else "bad-op"
   | ["disableaudit", fault] =>
     if fault = "1" then "err|listed:1|audited:1" else if fault = "0" then "ok|listed:0|audited:0" else "bad-op"
   | ["hdrstandby", upd] =>
